@@ -20,6 +20,10 @@ Proof. exact set_init_appends_in_order_holds. Qed.
 Theorem C14_limit_never_exceeded : limit_never_exceeded.
 Proof. exact limit_never_exceeded_holds. Qed.
 
+(** The counting wrapper (ReadNBuf) counts every transfer, one of 0 bytes included. *)
+Theorem C14_counting_wrapper_counts_every_transfer : counting_wrapper_counts_every_transfer.
+Proof. exact counting_wrapper_counts_every_transfer_holds. Qed.
+
 (** What was wrong before the repair of H6 ([self.limit as u32]). *)
 Theorem C14_h6_truncating_cast_refuted :
   exists b l, wf b /\ snd (lim_buf_parts_h6 {| inner := b; limit := l |})
@@ -30,8 +34,10 @@ Check C14_exposed_pairs_in_bounds : all_exposed_in_bounds.
 Check C14_reported_lengths_agree : reported_lengths_agree.
 Check C14_set_init_appends_in_order : set_init_appends_in_order.
 Check C14_limit_never_exceeded : limit_never_exceeded.
+Check C14_counting_wrapper_counts_every_transfer : counting_wrapper_counts_every_transfer.
 Print Assumptions C14_exposed_pairs_in_bounds.
 Print Assumptions C14_reported_lengths_agree.
 Print Assumptions C14_set_init_appends_in_order.
 Print Assumptions C14_limit_never_exceeded.
+Print Assumptions C14_counting_wrapper_counts_every_transfer.
 Print Assumptions C14_h6_truncating_cast_refuted.
